@@ -216,6 +216,9 @@ pub enum Call {
     SeekEnd(i64),
     StreamPos,
     Rewind,
+    /// not a call on the stream: the caller moves the bar itself (set_position(40)), so that bar and
+    /// stream offset differ when the next seek arrives
+    BarSetPos,
 }
 
 /// Execute one call on any object with the needed traits; returns a printable result and, for the
@@ -314,6 +317,7 @@ fn do_call<T: Read + BufRead + Write + Seek>(t: &mut T, c: Call, last_fill: &mut
         Call::SeekCur(d) => fmt_seek(t.seek(SeekFrom::Current(d))),
         Call::SeekEnd(d) => fmt_seek(t.seek(SeekFrom::End(d))),
         Call::StreamPos => fmt_seek(t.stream_position()),
+        Call::BarSetPos => "bar".to_string(),
         Call::Rewind => match t.rewind() {
             Ok(()) => "Ok".into(),
             Err(e) => format!("Err({:?})", e.kind()),
@@ -341,7 +345,7 @@ fn calls_of(f: Family) -> Vec<Call> {
         Family::Reader => vec![Call::Read(3), Call::Read(0), Call::ReadVectored, Call::ReadExact(4), Call::ReadToEnd, Call::ReadToString],
         Family::BufReader => vec![Call::FillBuf, Call::Consume(0), Call::Consume(2), Call::ConsumeAll, Call::Read(3), Call::ReadLine],
         Family::Writer => vec![Call::Write(3), Call::Write(0), Call::WriteVectored, Call::WriteAll(5), Call::Flush],
-        Family::Seeker => vec![Call::SeekStart(5), Call::SeekCur(-2), Call::SeekEnd(0), Call::SeekStart(99), Call::SeekCur(-99), Call::StreamPos, Call::Rewind, Call::Read(3)],
+        Family::Seeker => vec![Call::SeekStart(5), Call::SeekCur(-2), Call::SeekCur(0), Call::SeekEnd(0), Call::SeekStart(99), Call::SeekCur(-99), Call::StreamPos, Call::Rewind, Call::Read(3), Call::BarSetPos],
     }
 }
 
@@ -365,6 +369,12 @@ fn diff_run(fam: Family, calls: &[Call], script: &[(usize, Ans)]) -> Result<(u64
     let mut model_pos = 0u64;
     for (i, &c) in calls.iter().enumerate() {
         clock::advance_ms(2);
+        if c == Call::BarSetPos {
+            pb.set_position(40);
+            model_pos = 40;
+            results.push("bar.set_position(40)".to_string());
+            continue;
+        }
         let r1 = do_call(&mut bare_obj, c, &mut lf1);
         let before_consumed = inner.0.borrow().consumed as u64;
         let before_written = inner.0.borrow().written.len() as u64;
@@ -547,7 +557,8 @@ fn iter_part(tier: Tier, shard: Shard, stats: &mut Stats, case: &mut u64) {
         vec![None, Some(1), None, None, Some(2)],
         vec![Some(1), Some(2), None, Some(3), Some(4)],
     ];
-    // 0 = next, 1 = next_back, 2 = nth(1), 3 = size_hint, 4 = by_ref().take(2).count()
+    // 0 = next, 1 = next_back, 2 = nth(1), 3 = size_hint, 4 = by_ref().take(2).count(),
+    // 5 = fold by value (internal iteration; consumes the adaptor, so only as the last call)
     let depth = if tier == Tier::Quick { 4 } else { 6 };
     let mut ops: Vec<Vec<u8>> = vec![];
     let mut cur: Vec<Vec<u8>> = vec![vec![]];
@@ -563,6 +574,14 @@ fn iter_part(tier: Tier, shard: Shard, stats: &mut Stats, case: &mut u64) {
         ops.extend(nx.iter().cloned());
         cur = nx;
     }
+    let with_fold: Vec<Vec<u8>> = std::iter::once(vec![5u8])
+        .chain(ops.iter().filter(|o| o.len() < depth).map(|o| {
+            let mut d = o.clone();
+            d.push(5);
+            d
+        }))
+        .collect();
+    ops.extend(with_fold);
     for shape in &shapes {
         for f in 0..5usize {
             for seq in &ops {
@@ -585,8 +604,27 @@ fn iter_part(tier: Tier, shard: Shard, stats: &mut Stats, case: &mut u64) {
                     let mut out = vec![];
                     for (k, &o) in seq.iter().enumerate() {
                         clock::advance_ms(2);
-                        let (i0, j0) = (bare.i, bare.j);
+                        let (mut i0, j0) = (bare.i, bare.j);
+                        if o == 5 {
+                            i0 = bare.i;
+                        }
                         let (r1, r2): (String, String) = match o {
+                            5 => {
+                                let b = std::mem::replace(&mut bare, ScriptIter { front: vec![], i: 0, back: vec![], j: 0 });
+                                let (bi, bj) = (b.i, b.j);
+                                let w = std::mem::replace(&mut wrapped, ScriptIter { front: vec![], i: 0, back: vec![], j: 0 }.progress_with(ProgressBar::hidden()));
+                                let mut consumed = 0usize;
+                                let r1 = b.fold(0u32, |a, x| {
+                                    consumed += 1;
+                                    a * 10 + x as u32
+                                });
+                                let r2 = w.fold(0u32, |a, x| a * 10 + x as u32);
+                                // the answers the bare fold consumed: `consumed` items and the None that ended it
+                                bare.i = bi + consumed + 1;
+                                bare.j = bj;
+                                bare.front = shape.clone();
+                                (format!("{r1}"), format!("{r2}"))
+                            }
                             0 => (format!("{:?}", bare.next()), format!("{:?}", wrapped.next())),
                             1 => (format!("{:?}", bare.next_back()), format!("{:?}", wrapped.next_back())),
                             2 => (format!("{:?}", bare.nth(1)), format!("{:?}", wrapped.nth(1))),
